@@ -83,6 +83,18 @@ def check_pkg(case) -> list[Fail]:
     except Exception as e:  # noqa: BLE001
         return f + [exc_fail("from_bytes", e)]
     f += same_package(p2, doc, "bytes")
+    if len(b) > 12:
+        # decoding is a function of its input: an envelope cut inside its payload is refused (or, for a
+        # cut that happens to be a document, decoded) and the intact one still decodes afterwards
+        cut = 10 + (case.get("cut", 7) % (len(b) - 10))
+        try:
+            Package.from_bytes(b[:cut])
+        except Exception:  # noqa: BLE001 - the kind of rejection of a damaged payload is not specified
+            pass
+        try:
+            f += [Fail(x.clause, "after-rejected-input:" + x.locus, x.msg) for x in same_package(Package.from_bytes(b), doc, "bytes")]
+        except Exception as e:  # noqa: BLE001
+            f.append(Fail("from_bytes", "intact-envelope-refused-after-a-rejected-one", f"{type(e).__name__}: {e}"[:200]))
     if case["zstd"] is None:
         try:
             s = p.to_str(cfg)
@@ -175,6 +187,7 @@ def pkg_strategy(tier):
             "exts": [draw(extgen.extensions(name=n, max_defs=2)) for n in names],
             "format": draw(st.sampled_from(["JSON", "JSON", "JSON", "JSON", "MODULE", "MODULE_WITH_EXTS"])),
             "zstd": draw(st.one_of(st.none(), st.just(0), st.integers(-7, 22))),
+            "cut": draw(st.integers(0, 4000)),
         }
 
     return s()
